@@ -120,3 +120,17 @@ func BuildMessage(plugin *Plugin, desc *generator.Descriptor, isRoot bool, path 
 
 	return message, nil
 }
+
+// HasNothingToCopy returns true if the converters have no field of this message to copy: the message has no fields, or its
+// only fields are the placeholders of the messages without fields it embeds.
+func (m *Message) HasNothingToCopy() bool {
+	if m.IsEmpty {
+		return true
+	}
+	for _, f := range m.Fields {
+		if !f.IsPlaceholder {
+			return false
+		}
+	}
+	return true
+}
